@@ -4,6 +4,8 @@
  *   init <t>
  *   load <t> <flags> bind=<0|1> synthetic <description...>
  *   load <t> <flags> bind=<0|1> xml <path>
+ *   load <t> <flags> bind=<0|1> native            (discovery of the running machine: Linux + x86 backends)
+ *   bindthread <n> | unbind | showbind              bind the CALLING thread to the n-th allowed CPU / restore / record its binding
  *   load <t> <flags> bind=<0|1> xmlbuf <path>     (hwloc_topology_set_xmlbuffer of the file's bytes)
  *   blacklist <t> <component>                       hwloc_topology_set_components(BLACKLIST) before load
  *   exportfile <t> <path>                           hwloc_topology_export_xml to a file (document factory for the generators)
@@ -61,6 +63,7 @@
 static hwloc_topology_t topos[MAXT];
 static int loaded[MAXT];          /* slot holds a successfully loaded topology */
 static int in_threads;            /* inside a concurrent section */
+static cpu_set_t initial_mask;    /* the process' affinity when the harness started */
 static pthread_barrier_t opbarrier;
 static unsigned long value_counter[MAXT];
 
@@ -498,6 +501,17 @@ static void run_cmd(char *cmd, struct outcome *out, int verbose)
   char kind[32]; unsigned ti; int off = 0; hwloc_topology_t t;
   out->rc = 0; out->digest = FNV0; out->oracle[0] = 0;
   if (!strncmp(cmd, "barrier", 7)) { if (in_threads) pthread_barrier_wait(&opbarrier); out->rc = 1; return; }
+  if (!strncmp(cmd, "bindthread ", 11)) {       /* bind the CALLING thread to the n-th CPU of the process' initial affinity mask */
+    unsigned n = (unsigned)atoi(cmd + 11), cnt = (unsigned)CPU_COUNT(&initial_mask), k = 0; int c; cpu_set_t one; CPU_ZERO(&one);
+    for (c = 0; c < CPU_SETSIZE && cnt; c++) if (CPU_ISSET(c, &initial_mask) && k++ == n % cnt) { CPU_SET(c, &one); break; }
+    out->rc = cnt && sched_setaffinity(0, sizeof(one), &one) == 0; out->digest = fnv_u64(FNV0, (uint64_t)out->rc); return;
+  }
+  if (!strncmp(cmd, "unbind", 6)) { out->rc = sched_setaffinity(0, sizeof(initial_mask), &initial_mask) == 0; return; }
+  if (!strncmp(cmd, "showbind", 8)) {           /* the calling thread's binding, as a result of its history */
+    cpu_set_t cur; int c; CPU_ZERO(&cur); out->rc = sched_getaffinity(0, sizeof(cur), &cur) == 0; out->digest = FNV0;
+    for (c = 0; c < CPU_SETSIZE; c++) if (CPU_ISSET(c, &cur)) out->digest = fnv_u64(out->digest, (uint64_t)c);
+    return;
+  }
   if (sscanf(cmd, "%31s %u %n", kind, &ti, &off) < 2 || ti >= MAXT) { out->rc = -2; return; }
   cmd += off;
   if (!strcmp(kind, "init")) {
@@ -582,6 +596,7 @@ static void run_cmd(char *cmd, struct outcome *out, int verbose)
     if (hwloc_topology_set_flags(t, flags) < 0) { out->rc = 0; return; }
     errno = 0;
     if (!strcmp(src, "synthetic")) rc = hwloc_topology_set_synthetic(t, cmd);
+    else if (!strcmp(src, "native")) rc = 0;       /* discovery of this machine by the OS (and x86) backends */
     else if (!strcmp(src, "xmlbuf")) {
       FILE *f = fopen(cmd, "rb"); long len; char *buf;
       if (!f) { out->rc = -2; return; }
@@ -647,9 +662,19 @@ static void run_cmd(char *cmd, struct outcome *out, int verbose)
       if (!node || a >= t->nr_memattrs) { out->rc = 0; if (verbose) printf(" new=0 skip=1"); return; }
       conv = !!(t->memattrs[a].iflags & HWLOC_IMATTR_FLAG_CONVENIENCE);
       /* refresh-then-lookup in the C code: a target counts as existing if it is in the array after the refresh would have dropped dead ones */
-      for (j = 0; j < t->memattrs[a].nr_targets; j++) if (t->memattrs[a].targets[j].type == HWLOC_OBJ_NUMANODE && (t->memattrs[a].targets[j].gp_index == node->gp_index || t->memattrs[a].targets[j].os_index == node->os_index)) isnew = 0;
       hwloc_memattr_get_flags(t, a, &fl);
       loc.type = HWLOC_LOCATION_TYPE_CPUSET; loc.location.cpuset = hwloc_bitmap_iszero(node->cpuset) ? hwloc_get_root_obj(t)->cpuset : node->cpuset;
+      /* "new" = the call adds a target, or (since /repo c3717fc) an initiator to an existing target: both clear CACHE_VALID.
+       * Same matching rules as hwloc__memattr_get_target / match_internal_location. */
+      for (j = 0; j < t->memattrs[a].nr_targets; j++) if (t->memattrs[a].targets[j].type == HWLOC_OBJ_NUMANODE && (t->memattrs[a].targets[j].gp_index == node->gp_index || t->memattrs[a].targets[j].os_index == node->os_index)) {
+        struct hwloc_internal_memattr_target_s *g = &t->memattrs[a].targets[j]; unsigned k;
+        isnew = 0;
+        if (fl & HWLOC_MEMATTR_FLAG_NEED_INITIATOR) {
+          isnew = 1;
+          for (k = 0; k < g->nr_initiators; k++) if (g->initiators[k].initiator.type == HWLOC_LOCATION_TYPE_CPUSET && hwloc_bitmap_isincluded(loc.location.cpuset, g->initiators[k].initiator.location.cpuset)) isnew = 0;
+        }
+        break;
+      }
       out->rc = hwloc_memattr_set_value(t, a, node, (fl & HWLOC_MEMATTR_FLAG_NEED_INITIATOR) ? &loc : NULL, 0, ++value_counter[ti]) == 0;
       if (verbose) printf(" new=%d skip=0", conv ? 0 : isnew);
     } else if (!strcmp(what, "refresh")) {
@@ -734,6 +759,7 @@ int main(void)
 {
   char line[8192]; unsigned lineno = 0, i;
   setvbuf(stdout, NULL, _IOLBF, 0);
+  CPU_ZERO(&initial_mask); sched_getaffinity(0, sizeof(initial_mask), &initial_mask);
   while (fgets(line, sizeof(line), stdin)) {
     size_t n = strlen(line);
     while (n && (line[n-1] == '\n' || line[n-1] == '\r')) line[--n] = 0;
@@ -752,6 +778,14 @@ int main(void)
     if (!strncmp(line, "prog ", 5)) {
       unsigned ti; int off = 0;
       if (sscanf(line + 5, "%u %n", &ti, &off) >= 1 && ti < nthreads && proglen[ti] < MAXPROG) progs[ti][proglen[ti]++] = strdup(line + 5 + off);
+      continue;
+    }
+    if (!strcmp(line, "run inline")) {     /* thread 0's program run by the main thread itself: a really single-threaded process */
+      int bad = 0; unsigned q; uint64_t d = run_program(0, &bad, topd[0]);
+      printf("R %u threads=0 cache_chg=0 tree_chg=0\n", lineno);
+      printf("T 0 digest=%016llx ref=%016llx eq=1 bad=%d ops=", (unsigned long long)d, (unsigned long long)d, bad);
+      for (q = 0; q < proglen[0]; q++) printf("%s%08x", q ? "," : "", topd[0][q]);
+      printf("\n");
       continue;
     }
     if (!strcmp(line, "run") || !strcmp(line, "run noref")) {
